@@ -182,6 +182,9 @@ def run(ctx, spec):
             H[which - 1] = 15000.0                    # an LGS listed just before the duplicate NGS
         lam = [float(rng.choice([5e-7, 1.65e-6])) for _ in range(n_wfs)]
         lam[which] = lam[0]
+        other = [i for i in range(1, n_wfs) if i != which]
+        if j == 0 and other:
+            lam[other[0]] = 1.65e-6 if lam[0] != 1.65e-6 else 5e-7       # at least one sensor at another wavelength
         nl = int(rng.integers(1, 4))
         cfg = {"n_wfs": n_wfs, "pupil_masks": masks, "telescope_diameter": D, "subap_diameters": [D / n] * n_wfs, "gs_altitudes": H,
                "gs_positions": pos, "wfs_wavelengths": lam, "n_layers": nl,
